@@ -3,6 +3,13 @@
 // the modules never clash with another property's Gen module.
 //   suffix 0 = the overload without a flag, F = flag false, T = flag true
 #define IN(Ty, n) auto n = c.template in<Ty<T>> (#n)
+// extra small-integer-lattice TV inputs per element type for the pivot-search / zero-test trees (path coverage of TV is reported)
+#ifndef C07_GJ_LATTICE
+#define C07_GJ_LATTICE 3000
+#endif
+#ifndef C07_ALGO_LATTICE
+#define C07_ALGO_LATTICE 1500
+#endif
 
 //---------------------------------------------------------------------------
 // Vec2/3/4: normalize / normalizeExc / normalizeNonNull, normalized / normalizedExc / normalizedNonNull
@@ -32,7 +39,7 @@ EXTRACT ("C07Vec", v3_ofV4Exc, "C07.V3.ofV4Exc", { IN (Vec4, v); c.out (Vec3<T> 
 INVS (Matrix22, m22, "M22")
 INVS (Matrix33, m33, "M33")
 INVS (Matrix44, m44, "M44") // Matrix44<Sym>::gjInverse is opaque here (parameter functions gj44, gj44F, gj44Tstatus, gj44Tvalue)
-#define GJ_OPTS symns::Opts ().paths (20000)
+#define GJ_OPTS symns::Opts ().paths (20000).lattice (C07_GJ_LATTICE)
 EXTRACT_OPT ("C07GJ", m33_gjInverse0, "C07.M33.gjInverse0", GJ_OPTS, { IN (Matrix33, a); c.out (a.gjInverse ()); })
 EXTRACT_OPT ("C07GJ", m33_gjInverseF, "C07.M33.gjInverseF", GJ_OPTS, { IN (Matrix33, a); c.out (a.gjInverse (false)); })
 EXTRACT_OPT ("C07GJ", m33_gjInverseT, "C07.M33.gjInverseT", GJ_OPTS, { IN (Matrix33, a); c.out (a.gjInverse (true)); })
@@ -78,16 +85,22 @@ EXTRACT ("C07Frustum", fr_setE, "C07.Frustum.setFovExc", { FOVIN; fr.setExc (n, 
 
 //---------------------------------------------------------------------------
 // MatrixAlgo: the `exc` flag (one body, flag threaded down to checkForZeroScaleInRow)
+#define ALGO_OPTS symns::Opts ().lattice (C07_ALGO_LATTICE)
 #define ALGO_FLAG(S, EXC)                                                                                  \
     EXTRACT ("C07Algo", al_chk2##S, "C07.Algo.checkForZeroScaleInRow2" #S, { T scl = c.inS ("scl"); IN (Vec2, row); c.outB (checkForZeroScaleInRow (scl, row, EXC)); }) \
     EXTRACT ("C07Algo", al_chk3##S, "C07.Algo.checkForZeroScaleInRow3" #S, { T scl = c.inS ("scl"); IN (Vec3, row); c.outB (checkForZeroScaleInRow (scl, row, EXC)); }) \
-    EXTRACT ("C07Algo", al_es2##S, "C07.Algo.extractScaling2" #S, { IN (Matrix33, m); Vec2<T> scl (T (0)); bool ok = extractScaling (m, scl, EXC); c.outB (ok); c.out (scl); }) \
-    EXTRACT ("C07Algo", al_ess2##S, "C07.Algo.extractScalingAndShear2" #S, { IN (Matrix33, m); Vec2<T> scl (T (0)); T shr = T (0); bool ok = extractScalingAndShear (m, scl, shr, EXC); c.outB (ok); c.out (scl); c.outS (shr); }) \
-    EXTRACT ("C07Algo", al_ears2##S, "C07.Algo.extractAndRemoveScalingAndShear2" #S, { IN (Matrix33, m); Vec2<T> scl (T (0)); T shr = T (0); bool ok = extractAndRemoveScalingAndShear (m, scl, shr, EXC); c.outB (ok); c.out (m); c.out (scl); c.outS (shr); }) \
-    EXTRACT ("C07Algo", al_rss2##S, "C07.Algo.removeScalingAndShear2" #S, { IN (Matrix33, m); bool ok = removeScalingAndShear (m, EXC); c.outB (ok); c.out (m); }) \
-    EXTRACT ("C07Algo", al_sss2##S, "C07.Algo.sansScalingAndShear2" #S, { IN (Matrix33, m); c.out (sansScalingAndShear (m, EXC)); }) \
-    EXTRACT ("C07Algo", al_shrt2##S, "C07.Algo.extractSHRT2" #S, { IN (Matrix33, m); Vec2<T> s (T (0)); T h = T (0); T r = T (0); Vec2<T> t (T (0)); bool ok = extractSHRT (m, s, h, r, t, EXC); c.outB (ok); c.out (s); c.outS (h); c.outS (r); c.out (t); })
-// removeScaling / sansScaling (2-D) call Matrix33::rotate -> setRotation, whose `using namespace std; cos ((T) r)` is ambiguous at
-// T = Sym (std::cos vs ADL): not instantiable here; those two only forward `exc` to extractSHRT and are decided by correspondence.
+    EXTRACT_OPT ("C07Algo", al_es2##S, "C07.Algo.extractScaling2" #S, ALGO_OPTS, { IN (Matrix33, m); Vec2<T> scl (T (0)); bool ok = extractScaling (m, scl, EXC); c.outB (ok); c.out (scl); }) \
+    EXTRACT_OPT ("C07Algo", al_ess2##S, "C07.Algo.extractScalingAndShear2" #S, ALGO_OPTS, { IN (Matrix33, m); Vec2<T> scl (T (0)); T shr = T (0); bool ok = extractScalingAndShear (m, scl, shr, EXC); c.outB (ok); c.out (scl); c.outS (shr); }) \
+    EXTRACT_OPT ("C07Algo", al_ears2##S, "C07.Algo.extractAndRemoveScalingAndShear2" #S, ALGO_OPTS, { IN (Matrix33, m); Vec2<T> scl (T (0)); T shr = T (0); bool ok = extractAndRemoveScalingAndShear (m, scl, shr, EXC); c.outB (ok); c.out (m); c.out (scl); c.outS (shr); }) \
+    EXTRACT_OPT ("C07Algo", al_rss2##S, "C07.Algo.removeScalingAndShear2" #S, ALGO_OPTS, { IN (Matrix33, m); bool ok = removeScalingAndShear (m, EXC); c.outB (ok); c.out (m); }) \
+    EXTRACT_OPT ("C07Algo", al_sss2##S, "C07.Algo.sansScalingAndShear2" #S, ALGO_OPTS, { IN (Matrix33, m); c.out (sansScalingAndShear (m, EXC)); }) \
+    EXTRACT_OPT ("C07Algo", al_shrt2##S, "C07.Algo.extractSHRT2" #S, ALGO_OPTS, { IN (Matrix33, m); Vec2<T> s (T (0)); T h = T (0); T r = T (0); Vec2<T> t (T (0)); bool ok = extractSHRT (m, s, h, r, t, EXC); c.outB (ok); c.out (s); c.outS (h); c.outS (r); c.out (t); })
+// removeScaling / sansScaling (2-D): forward `exc` to extractSHRT, then rebuild the matrix (translate, rotate, shear); sin / cos /
+// atan2 are parameters of the emitted definitions (sym_c07.cpp includes <math.h> first so that `cos ((T) r)` is not ambiguous)
+#define ALGO_FLAG2(S, EXC)                                                                                 \
+    EXTRACT_OPT ("C07Algo", al_rs2##S, "C07.Algo.removeScaling2" #S, ALGO_OPTS, { IN (Matrix33, m); bool ok = removeScaling (m, EXC); c.outB (ok); c.out (m); }) \
+    EXTRACT_OPT ("C07Algo", al_ss2##S, "C07.Algo.sansScaling2" #S, ALGO_OPTS, { IN (Matrix33, m); c.out (sansScaling (m, EXC)); })
 ALGO_FLAG (F, false)
 ALGO_FLAG (T, true)
+ALGO_FLAG2 (F, false)
+ALGO_FLAG2 (T, true)
